@@ -119,7 +119,7 @@ Ltac fa := repeat match goal with
   | |- Forall _ _ => progress (unfold rp_inits, copy_default_eps, opt_client, client_locs, inst_locs; cbn)
   end.
 Ltac tab := cbn; repeat rewrite Nat.eqb_refl; cbn; repeat rewrite orb_true_r; cbn; try reflexivity.
-Ltac cases o := destruct o as [i stor opts|i sl|i sl t opts|i cfg opts|i c st t|i c st t|i c t|i stor q|st|i c k|i c|i c|i c|c k|sl|f a|i stor cl k own|i c k r];
+Ltac cases o := destruct o as [i stor opts|i sl|i sl t opts|i cfg opts|i c st t|i c st t|i c t|i stor q|st|i c k|i c|i c|i c|c k|sl|f a|i stor q r|i stor cl k own|i c k r];
   try destruct q; try destruct k; try destruct c; try destruct st; cbn.
 
 Definition own_in (ids : list nat) (l : loc) : bool :=
@@ -358,6 +358,10 @@ Proof. reflexivity. Qed.
 Lemma helper_pure f a : accesses_none (HelperCall f a) /\ forall (l : list op) h, result (HelperCall f a) (run_ops l h) = [1].
 Proof. split; [intro h|intros l h]; reflexivity. Qed.
 
+Lemma answer_result i stor q r l h :
+  Forall (fun o => is_prov_request o = true) l -> result (ProvAns i stor q r) (run_ops l h) = [S r].
+Proof. reflexivity. Qed.
+
 Lemma disjb_spec a b : disjb a b = true -> disjointL a b.
 Proof.
   unfold disjb. rewrite forallb_forall. intros H x Hx Hb. specialize (H x Hx).
@@ -488,12 +492,21 @@ Proof.
   destruct (h' l =? h l) eqn:E; [destruct Hp|]. destruct Hp as [<-|[]]. cbn. now apply Nat.eqb_neq.
 Qed.
 
+Lemma own_answers_model probes h :
+  own_answers probes (map (fun p => result (snd p) h) probes) = true.
+Proof.
+  unfold own_answers. induction probes as [|[k o] probes IH]; [reflexivity|].
+  cbn [map combine forallb fst snd]. rewrite IH, andb_true_r.
+  destruct o; try reflexivity; unfold own_answer; cbn; now rewrite Nat.eqb_refl.
+Qed.
+
 Theorem spec_sound : forall i, wf i = true -> spec i (model i) = true.
 Proof.
   intros [h0 o|h0 l probes|m] Hwf; cbn.
   - apply forallb_forall. intros p Hp. apply in_changed in Hp.
     apply negb_true_iff. eapply no_hidden_writes, changed_in_writes; eauto.
-  - match goal with |- list_eqb _ ?a ?b = true => assert (Heq : a = b) end; [|rewrite Heq; apply list_list_eqb_refl].
+  - rewrite own_answers_model, andb_true_r.
+    match goal with |- list_eqb _ ?a ?b = true => assert (Heq : a = b) end; [|rewrite Heq; apply list_list_eqb_refl].
     apply map_ext_in. intros [k probe] Hp. cbn [fst snd]. symmetry.
     apply isolation_sched. intros t a b Ha Hb Hne.
     apply disjb_spec. cbn in Hwf. rewrite forallb_forall in Hwf.
@@ -513,8 +526,8 @@ Definition ex_order : input :=
     [(1, NewProvider 1 2 [PEndpoint EAuth 9]); (3, NewProvider 3 4 []); (5, NewRPOIDC 5 0 1 [RHTTPClient 1]);
      (5, RPCall 5 1 REndSession); (7, NewRS 7 (Some 1) false 2); (8, HandlerReq 5 1 HCodeExchange 0);
      (9, HandlerReq 5 1 HCodeExchange 1); (10, ClientReq 3 4 4 KBearer true); (11, ClientReq 3 4 5 KBearer true);
-     (11, ClientReq 3 4 5 KCode false); (10, ClientReq 3 4 4 KRevoke true); (12, HelperCall 1 5)]
-    [(12, HelperCall 0 5); (10, ClientReq 3 4 4 KCode true); (11, ClientReq 3 4 5 KBearer false); (3, ProvReq 3 4 QDiscovery); (6, ClientCall 1 CDiscover); (7, RSIntrospect 7 1); (8, HandlerReq 5 1 HCodeExchange 0);
+     (11, ClientReq 3 4 5 KCode false); (10, ClientReq 3 4 4 KRevoke true); (12, HelperCall 1 5); (13, ProvAns 3 4 2 0); (14, ProvAns 1 2 2 1)]
+    [(13, ProvAns 3 4 14 2); (14, ProvAns 1 2 1 3); (12, HelperCall 0 5); (10, ClientReq 3 4 4 KCode true); (11, ClientReq 3 4 5 KBearer false); (3, ProvReq 3 4 QDiscovery); (6, ClientCall 1 CDiscover); (7, RSIntrospect 7 1); (8, HandlerReq 5 1 HCodeExchange 0);
      (9, HandlerReq 5 1 HCodeExchange 1)].
 Example spec_sound_nonvacuous : wf ex_order = true /\ spec ex_order (model ex_order) = true.
 Proof. split; vm_compute; reflexivity. Qed.
